@@ -4,7 +4,7 @@
 From IoosQc Require Import Base Generated Attenuated AttenuatedProofs Skel SkelBase SkelP_atten.
 From Coq Require Import String.
 
-(* for all series, missing patterns, both check types, with and without test_period, all min_obs / min_period settings and all thresholds (fail above suspect included): model = specification on the stated domain (windowed mode: increasing time axis of the same length, positive period, non-negative minimum; for 'range' no missing value inside the window of a present point — outside that clause the code reports UNKNOWN, known finding F19) *)
+(* rolling mode and whole-series mode, both check types, EVERY placement of missing values: on an increasing axis of the right length with a positive period and an admissible minimum, model = specification (spread of the OBSERVED values of the trailing window (t - P, t]; UNKNOWN below the required number of observations) *)
 Theorem C12_refines :
   forall (check : string) (st ft : Q) (tp mo mp : option Z) (xs : list obs) (ts : list Z),
          (forall ct : check_type, parse_check_type check = Some ct -> atten_dom ct tp mo mp xs ts) ->
@@ -148,16 +148,6 @@ Theorem C12_model_length :
 Proof. exact (@atten_model_length). Qed.
 Print Assumptions C12_model_length.
 
-(* rolling range with a missing value inside the window: pandas' raw ptp returns NaN -> UNKNOWN although observed values exist (known finding F19) *)
-Theorem C12_range_nan_refuted :
-  exists (check : string) (st ft : Q) (tp mo mp : option Z) (xs : list obs) 
-         (ts : list Z),
-           Datatypes.length ts = Datatypes.length xs /\
-           increasing ts /\
-           atten_model check st ft tp mo mp xs ts <> atten_spec check st ft tp mo mp xs ts.
-Proof. exact (@atten_refuted_range_nan). Qed.
-Print Assumptions C12_range_nan_refuted.
-
 (* TRANSLATOR TIE: the skeleton generated from the current source of attenuated_signal_test (>= suspect GOOD, < suspect SUSPECT, isnan UNKNOWN, < fail FAIL, mask MISSING, after the empty-input return) run on the spread array yields exactly the model's flag overwrites (stated for check_type range, where the array holds the spread itself; for std the model compares variances) *)
 Theorem C12_source_skeleton :
   forall (st ft : Q) (xs : list obs) (cv : list (option Q)),
@@ -167,6 +157,29 @@ Theorem C12_source_skeleton :
            (all_flags (Datatypes.length xs) UNKNOWN).
 Proof. exact (@skel_atten_range). Qed.
 Print Assumptions C12_source_skeleton.
+
+(* the witness of the former deviation F19 (rolling range with a missing value inside the window) now follows the property: the point is judged on the observed values of its window *)
+Theorem C12_range_with_missing_value :
+  atten_model "range" 5 1 (Some 3%Z) None None [Some 0; None; Some 3]
+           [0%Z; 1000000000%Z; 2000000000%Z] = Flags [FAIL; MISSING; SUSPECT] /\
+         atten_spec "range" 5 1 (Some 3%Z) None None [Some 0; None; Some 3]
+           [0%Z; 1000000000%Z; 2000000000%Z] = Flags [FAIL; MISSING; SUSPECT].
+Proof. exact (@atten_range_nan_ok). Qed.
+Print Assumptions C12_range_with_missing_value.
+
+(* the rolling instance spelled out: either check type, any placement of missing values *)
+Theorem C12_refines_rolling :
+  forall (check : string) (ct : check_type) (st ft : Q) (p : Z) (mo mp : option Z)
+           (xs : list obs) (ts : list Z) (m : Z),
+         parse_check_type check = Some ct ->
+         (0 < p)%Z ->
+         Datatypes.length ts = Datatypes.length xs ->
+         increasing ts ->
+         min_periods mo mp ts = Some m ->
+         (0 <= m)%Z ->
+         atten_model check st ft (Some p) mo mp xs ts = atten_spec check st ft (Some p) mo mp xs ts.
+Proof. exact (@atten_refines_rolling). Qed.
+Print Assumptions C12_refines_rolling.
 
 Theorem C12_assign_order : assign_order_attenuated_signal_test = [UNKNOWN; GOOD; SUSPECT; UNKNOWN; FAIL; MISSING].
 Proof. reflexivity. Qed.
